@@ -200,6 +200,10 @@ def rec_obs(tier, seed):
                       functions=['raid_gfcauchy (raid/tables.c)'], note='rows %s concrete, the three columns symbolic (all C(251,3) = 2 604 125 column triples)' % (r,)))
     obs.append(Ob('mds.power.order3', R, 'h_mds3', ['raid/tables.c'], defs={'MDS_TABLE': 'raid_gfvandermonde', 'MDS_ROWS': 3}, solver=KISSAT, timeout=3000, mem=6, cost=40, tier='thorough',
                   functions=['raid_gfvandermonde (raid/tables.c)'], note='the only row triple (0,1,2), columns symbolic'))
+    synd = dict(region='validate_syndrome', file='raid/check.c', begin='/* check that the final parity is 0 */', end='return 0;', end_first_after=True, max_lines=8, brace_balance=-1, expect_loops=1,
+                proto='static int region_validate_syndrome(uint8_t *p, int nr, int nv)', prologue='\tint l;\n\t{ /* body of the per-byte loop; the region text closes this brace */', epilogue='\treturn 0;')
+    obs.append(Ob('check.validate.syndrome_region', R, 'h_syndrome', [], inject=[synd], defs={'VERIF_SYNDROME_REGION': None, 'SIZE': 6}, unwind=9, timeout=600, mem=4, cost=3,
+                  functions=['raid_validate: final syndrome test (raid/check.c, extracted mechanically)'], note='every syndrome vector, every nr < nv <= 6'))
     obs.append(Ob('helper.raid_sort', R, 'h_sort', ['raid/helper.c'], unwind=8, timeout=600, mem=4, cost=3, functions=['raid_sort (raid/helper.c)']))
     obs.append(Ob('helper.raid_insert', R, 'h_insert', ['raid/helper.c'], unwind=9, timeout=600, mem=4, cost=3, functions=['raid_insert (raid/helper.c)']))
     for r, n in ((1, 1), (1, 8), (2, 8), (3, 8), (6, 8), (5, 6), (6, 6)):
@@ -225,6 +229,13 @@ SCRUB_MARK = dict(region='scrub_mark', file='cmdline/scrub.c', begin='\t\tif (si
                   prologue='\tunsigned j;')
 
 
+SCRUB_CLASSIFY = dict(region='scrub_classify', file='cmdline/scrub.c', scope='static int state_scrub_process(struct snapraid_state* state, struct snapraid_parity_handle* parity_handle, block_off_t blockstart, block_off_t blockmax, struct snapraid_plan* plan, time_t now)',
+                      begin='state_usage_file(state, disk, file);', end='/* buffers for parity read and not computed */', end_first_after=True, max_lines=120, brace_balance=-1,
+                      proto='static void region_scrub_classify(struct snapraid_state *state, struct snapraid_block *block, struct snapraid_disk *disk, struct snapraid_file *file, struct snapraid_task *task, int rehash, struct snapraid_rehash *rehandle, void **buffer, unsigned diskcur, unsigned read_size, block_off_t file_pos, block_off_t blockcur, int *block_unsynced_p, int *file_unsynced_p, unsigned *error_p, int *error_on_p, unsigned *silent_error_p, int *silent_on_p, unsigned *io_error_p, int *io_on_p, int *bailed)',
+                      prologue='\tunsigned char hash[HASH_MAX];\n\tchar esc_buffer[ESC_MAX];\n\tdata_off_t countsize = 0;\n\tunsigned error = *error_p, silent_error = *silent_error_p, io_error = *io_error_p;\n\tint block_is_unsynced = *block_unsynced_p, file_is_unsynced = *file_unsynced_p, error_on_this_block = *error_on_p, silent_error_on_this_block = *silent_on_p, io_error_on_this_block = *io_on_p;\n\tint once;\n\tfor (once = 0; once < 1; ++once) { /* per-disk loop body; the region text closes this brace */',
+                      epilogue='\tgoto out;\nbail:\n\t*bailed = 1;\nout:\n\t*block_unsynced_p = block_is_unsynced; *file_unsynced_p = file_is_unsynced; *error_p = error; *error_on_p = error_on_this_block;\n\t*silent_error_p = silent_error; *silent_on_p = silent_error_on_this_block; *io_error_p = io_error; *io_on_p = io_error_on_this_block;\n\t(void)esc_buffer; (void)countsize;')
+
+
 def c15(tier, seed):
     S = 'harness/h_scrub.c'
     sf = lambda *f: [x + ' (cmdline/scrub.c)' for x in f]
@@ -243,6 +254,9 @@ def c15(tier, seed):
                   timeout=900, mem=6, cost=8, replay=False,
                   functions=['state_scrub_process: region "set the error status" .. "mark the state as needing write" (cmdline/scrub.c, extracted mechanically)', 'info_make / info_set_bad (cmdline/elem.h)'],
                   note='every combination of silent / I/O / plain error, hash migration, info word, time; info_set replaced by a recording contract (dfcc); 2 disks in the rehash loop'))
+    obs.append(Ob('scrub.classify.region', S, 'h_classify', inject=[SCRUB_REGION, SCRUB_CLASSIFY], defs={'VERIF_CLASSIFY_REGION': None}, unwind=18, small_path=True, timeout=900, mem=6, cost=8, replay=False,
+                  functions=['state_scrub_process: per-disk classification region (cmdline/scrub.c, extracted mechanically)', 'block_has_invalid_parity / block_has_file / block_has_updated_hash (cmdline/elem.h)'],
+                  note='every block state (incl. deleted and empty), time-stamp flag, reader outcome, recorded hash / digests / hash size, migration flag; memhash by contract'))
     for c, bmax in ((100, 100), (12, 1)):
         obs.append(Ob('scrub.md.c%d' % c, S, 'h_md', inject=[SCRUB_REGION], defs={'MD_C': c, 'MD_BMAX': bmax}, unwind=4, small_path=True, solver=KISSAT, timeout=900, mem=6, cost=10,
                       functions=sf('md'), note='divisor %d as at the call site, a symbolic 32-bit, b <= %d' % (c, bmax)))
@@ -339,7 +353,10 @@ STATE_Q_AUTOCONF = dict(region='state_q_autoconf', file='cmdline/state.c', scope
 
 
 def state_obs(tier):
-    return [Ob('elem.fs_file2block_get.guard', 'harness/h_elem.c', 'h_file2block_guard', unwind=4, small_path=True, timeout=600, mem=6, cost=3,
+    return [Ob('state.verify_content.all_copies', 'harness/h_statew.c', 'h_verify_all', unwind=6, small_path=True, timeout=900, mem=8, cost=5, replay=False, kind='bounded', bound='1..3 content copies',
+               functions=['state_verify_content (cmdline/state.c)'],
+               note='every verdict vector of the per-copy verification threads (thread_create / thread_join / sopen_read / sclose by stub)'),
+            Ob('elem.fs_file2block_get.guard', 'harness/h_elem.c', 'h_file2block_guard', unwind=4, small_path=True, timeout=600, mem=6, cost=3,
                functions=['fs_file2block_get (cmdline/elem.c)', 'file_block (cmdline/elem.h)'], note='every blockmax and position (32 bit)'),
             Ob('state.write.order', 'harness/h_statew.c', 'h_state_write', route='dfcc', replace=['state_write_content', 'state_verify_content', 'state_rename_content'], unwind=4, small_path=True,
                timeout=900, mem=8, cost=5, replay=False, functions=['state_write (cmdline/state.c)'],
